@@ -127,6 +127,15 @@ theorem all_nodup (i0 i1 : Int) (nth : Nat) : (all i0 i1 nth).Nodup := by
     simp [this]
 
 end ParFor
+theorem count_flatMap_range (n : Nat) (f : Nat → List Int) (i : Int) :
+    ((List.range n).flatMap f).count i = ((List.range n).map fun k => (f k).count i).sum := by
+  induction n with
+  | zero => rfl
+  | succ n ih =>
+    rw [List.range_succ, List.flatMap_append, List.count_append, ih, List.map_append, List.sum_append]
+    simp
+
+
 section Handover
 open AslModel.Thread.Handover
 
@@ -155,6 +164,13 @@ def PosInv (c : Cfg) : Prop :=
 structure HInv (c : Cfg) : Prop where
   w : ∀ j, j < c.n → WInv c j
   pos : PosInv c
+
+/-- a function thread that has copied its context but not yet set `ready` still has a live context (the creator is
+    spinning on that very flag) -/
+def RInv (c : Cfg) : Prop := c.ctxFree = false → ∀ j, j < c.n → c.wpc j = 2 → c.ctxValid j = true
+
+theorem init_rinv (n : Nat) (cf : Bool) : RInv (init n cf) := by
+  intro _ j _ h; simp [init] at h
 
 theorem init_inv (n : Nat) (cf : Bool) : HInv (init n cf) := by
   constructor
@@ -373,7 +389,7 @@ theorem posInv_of_wpc_mono (c c' : Cfg) (k : Nat) (hk : k < c.n)
     · subst hjk; exact ⟨hk5 this.1, this.2⟩
     · rw [hw j hjk]; exact this
 
-theorem worker_step (c : Cfg) (k : Nat) (hI : HInv c) (hb : c.bad = none) (he : enabled c (some k) = true) :
+theorem worker_step (c : Cfg) (k : Nat) (hI : HInv c) (hr : RInv c) (hb : c.bad = none) (he : enabled c (some k) = true) :
     HInv (step c (some k)) ∧ (step c (some k)).bad = none := by
   obtain ⟨hw, hp⟩ := hI
   simp only [enabled, Bool.and_eq_true, decide_eq_true_eq] at he
@@ -434,7 +450,12 @@ theorem worker_step (c : Cfg) (k : Nat) (hI : HInv c) (hb : c.bad = none) (he : 
       · subst hjk; simp_all
       · simp only [hjk, if_false]; exact this
     · exact posInv_of_wpc_mono c _ k hk rfl rfl rfl rfl (fun j hj => by simp [upd, hj]) hp (by simp [upd, h]) (by omega) (by omega)
-  · rw [if_neg (by omega), if_pos h]
+  · have hcv : (c.ctxFree || c.ctxValid k) = true := by
+      by_cases hcf : c.ctxFree = true
+      · simp [hcf]
+      · have : c.ctxFree = false := by simpa using hcf
+        simp [hr this k hk h]
+    rw [if_neg (by omega), if_pos h, if_pos hcv]
     refine ⟨⟨?_, ?_⟩, hb⟩
     · intro j hj
       have := hw j hj
@@ -465,24 +486,105 @@ theorem worker_step (c : Cfg) (k : Nat) (hI : HInv c) (hb : c.bad = none) (he : 
       · simp only [hjk, if_false]; exact this
     · exact posInv_of_wpc_mono c _ k hk rfl rfl rfl rfl (fun j hj => by simp [upd, hj]) hp (by simp [upd, h]) (by omega) (by omega)
 
-theorem step_inv (c : Cfg) (a : Option Nat) (hI : HInv c) (hb : c.bad = none) (he : enabled c a = true) :
-    HInv (step c a) ∧ (step c a).bad = none := by
+theorem rinv_step (c : Cfg) (a : Option Nat) (hI : HInv c) (hr : RInv c) (he : enabled c a = true) : RInv (step c a) := by
+  obtain ⟨hw, hp⟩ := hI
   cases a with
-  | none => exact creator_step c hI hb he
-  | some k => exact worker_step c k hI hb he
+  | none =>
+    unfold step
+    unfold enabled at he
+    cases hc : c.cpos with
+    | spawn k =>
+      simp only
+      by_cases hcf : c.ctxFree = true
+      · rw [if_pos hcf]; intro h; simp [hcf] at h
+      · rw [if_neg hcf]
+        intro hf j hj h2
+        simp only [upd] at h2 ⊢
+        by_cases hjk : j = k
+        · subst hjk; simp at h2
+        · simp only [hjk, if_false] at h2 ⊢; exact hr hf j hj h2
+    | spin k =>
+      rw [hc] at he
+      simp only at he ⊢
+      rw [if_pos he]
+      intro hf j hj h2
+      simp only [upd] at h2 ⊢
+      by_cases hjk : j = k
+      · subst hjk
+        have := ((hw j hj).1).mp he
+        omega
+      · simp only [hjk, if_false]; exact hr hf j hj h2
+    | join k =>
+      rw [hc] at he; simp only at he ⊢; rw [if_pos he]; exact hr
+    | del k => simp only; exact hr
+    | done => simp only; exact hr
+  | some k =>
+    unfold step
+    dsimp only
+    by_cases h1 : c.wpc k = 1
+    · rw [if_pos h1]
+      by_cases hv : c.ctxValid k = true
+      · rw [if_pos hv]
+        intro hf j hj h2
+        simp only [upd] at h2 ⊢
+        by_cases hjk : j = k
+        · subst hjk; exact hv
+        · simp only [hjk, if_false] at h2; exact hr hf j hj h2
+      · rw [if_neg hv]; exact hr
+    · rw [if_neg h1]
+      by_cases h2 : c.wpc k = 2
+      · rw [if_pos h2]
+        split
+        · intro hf j hj hj2
+          simp only [upd] at hj2 ⊢
+          by_cases hjk : j = k
+          · subst hjk; simp at hj2
+          · simp only [hjk, if_false] at hj2; exact hr hf j hj hj2
+        · exact hr
+      · rw [if_neg h2]
+        by_cases h3 : c.wpc k = 3
+        · rw [if_pos h3]
+          intro hf j hj hj2
+          simp only [upd] at hj2 ⊢
+          by_cases hjk : j = k
+          · subst hjk; simp at hj2
+          · simp only [hjk, if_false] at hj2; exact hr hf j hj hj2
+        · rw [if_neg h3]
+          by_cases h4 : c.wpc k = 4
+          · rw [if_pos h4]
+            split
+            · intro hf j hj hj2
+              simp only [upd] at hj2 ⊢
+              by_cases hjk : j = k
+              · subst hjk; simp at hj2
+              · simp only [hjk, if_false] at hj2; exact hr hf j hj hj2
+            · exact hr
+          · rw [if_neg h4]; exact hr
 
-theorem run_inv (s : List (Option Nat)) (c : Cfg) (hI : HInv c) (hb : c.bad = none) :
-    HInv (run c s) ∧ (run c s).bad = none := by
+theorem step_inv (c : Cfg) (a : Option Nat) (hI : HInv c) (hr : RInv c) (hb : c.bad = none) (he : enabled c a = true) :
+    HInv (step c a) ∧ RInv (step c a) ∧ (step c a).bad = none := by
+  have hr' := rinv_step c a hI hr he
+  cases a with
+  | none => obtain ⟨a1, a2⟩ := creator_step c hI hb he; exact ⟨a1, hr', a2⟩
+  | some k => obtain ⟨a1, a2⟩ := worker_step c k hI hr hb he; exact ⟨a1, hr', a2⟩
+
+theorem run_inv2 (s : List (Option Nat)) (c : Cfg) (hI : HInv c) (hr : RInv c) (hb : c.bad = none) :
+    HInv (run c s) ∧ RInv (run c s) ∧ (run c s).bad = none := by
   induction s generalizing c with
-  | nil => exact ⟨hI, hb⟩
+  | nil => exact ⟨hI, hr, hb⟩
   | cons a s ih =>
     unfold run
     by_cases he : enabled c a = true
     · simp only [he, hb, Option.isNone_none, Bool.and_self, if_true]
-      obtain ⟨h1, h2⟩ := step_inv c a hI hb he
-      exact ih _ h1 h2
+      obtain ⟨h1, h2, h3⟩ := step_inv c a hI hr hb he
+      exact ih _ h1 h2 h3
     · simp only [he, Bool.false_and]
-      exact ih c hI hb
+      exact ih c hI hr hb
+
+theorem run_inv (s : List (Option Nat)) (c : Cfg) (hI : HInv c) (hr : RInv c) (hb : c.bad = none) :
+    HInv (run c s) ∧ (run c s).bad = none := by
+  obtain ⟨a, _, b⟩ := run_inv2 s c hI hr hb
+  exact ⟨a, b⟩
 
 theorem run_n (s : List (Option Nat)) (c : Cfg) : (run c s).n = c.n := by
   induction s generalizing c with
@@ -497,7 +599,7 @@ theorem run_n (s : List (Option Nat)) (c : Cfg) : (run c s).n = c.n := by
       | some k =>
         dsimp only
         by_cases h1 : c.wpc k = 1 <;> by_cases h2 : c.wpc k = 2 <;> by_cases h3 : c.wpc k = 3 <;> by_cases h4 : c.wpc k = 4 <;>
-          by_cases h5 : c.ctxValid k = true <;> by_cases h6 : c.objAlive k = true <;> simp [h1, h2, h3, h4, h5, h6]
+          by_cases h5 : c.ctxValid k = true <;> by_cases h6 : c.objAlive k = true <;> by_cases h7 : c.ctxFree = true <;> simp [h1, h2, h3, h4, h5, h6, h7]
     · exact ih c
 
 end Handover
